@@ -12,6 +12,7 @@ import (
 	"sort"
 	"strings"
 	"sync"
+	"sync/atomic"
 	"time"
 
 	"github.com/gobuffalo/plush/v5"
@@ -169,6 +170,11 @@ func checkC14(c *Ctx) error {
 	// each execution inside the write for a while
 	for _, g := range []int{2, 8} {
 		scenarios = append(scenarios, c14Scenario{Kind: "sharedarray", G: g, Topo: "child", Iters: 4, Src: `<%= items %>|<%= for (v) in items { %><%= v %><% } %>`})
+	}
+	// one parsed template whose output is longer in every execution than in any before it (whatever an execution records
+	// about "the largest output so far" is recorded all the time)
+	for _, g := range []int{2, 8} {
+		scenarios = append(scenarios, c14Scenario{Kind: "growing", G: g, Topo: "root", Iters: 40, Src: `[<%= pad %>]<%= for (v) in [1, 2] { %><%= pad %><% } %>`})
 	}
 	// BuffaloRenderer without data, all renderings handing over ONE helpers map (an application's): the map is only read
 	for _, g := range []int{2, 8} {
@@ -583,7 +589,52 @@ func c14RunSharedArray(s c14Scenario) (res c14Result) {
 	return
 }
 
+// c14RunGrowing: G goroutines execute ONE parsed template; the data of every execution is longer than that of all before.
+func c14RunGrowing(s c14Scenario) (res c14Result) {
+	t, err := plush.NewTemplate(s.Src)
+	if err != nil {
+		res.Mismatch = "template: " + err.Error()
+		return
+	}
+	var n int64
+	var wg sync.WaitGroup
+	var mu sync.Mutex
+	start := make(chan struct{})
+	for g := 0; g < s.G; g++ {
+		wg.Add(1)
+		go func(g int) {
+			defer wg.Done()
+			defer func() {
+				if r := recover(); r != nil {
+					mu.Lock()
+					res.Panic = fmt.Sprint(r)
+					mu.Unlock()
+				}
+			}()
+			<-start
+			for i := 0; i < s.Iters; i++ {
+				pad := strings.Repeat("x", int(atomic.AddInt64(&n, 1))+len(s.Src))
+				ctx := plush.NewContext()
+				ctx.Set("pad", pad)
+				out, err := t.Exec(ctx)
+				if want := "[" + pad + "]" + pad + pad; out != want || err != nil {
+					mu.Lock()
+					res.Mismatch = fmt.Sprintf("goroutine %d execution %d got (%q, %v), alone it gives %d characters", g, i, trunc(out, 60), err, len(want))
+					mu.Unlock()
+					return
+				}
+			}
+		}(g)
+	}
+	close(start)
+	wg.Wait()
+	return
+}
+
 func c14RunExec(s c14Scenario) (res c14Result) {
+	if s.Kind == "growing" {
+		return c14RunGrowing(s)
+	}
 	if s.Kind == "buffalo" {
 		return c14RunBuffalo(s)
 	}
